@@ -6,12 +6,11 @@
   `cycleInfo` = the tail of `tx_rx_dc`). Every theorem holds for BOTH build modes (`m : Mode`)
   unless it says otherwise.
 
-  KNOWN FINDING (c18/start-time-add-overflow): the start time is computed as
-  `(system_time + first_pulse_delay) / period * period` with an unchecked `u64` addition. For a
-  reference time within `delay` of `u64::MAX` a debug build panics and a release build programs a
-  start time outside the window. `start_time_window_partial` therefore carries the hypothesis
-  `sys + delay < 2^64`; `start_time_window_counterexample` / `start_time_overflow_checked` /
-  `start_time_overflow_wrapping` characterise the excluded class.
+  FIXED (was c18/start-time-add-overflow): the first pulse time `system_time + first_pulse_delay` is
+  now a `checked_add` performed before any register is written; a sum that does not fit in 64 bits
+  is rejected with `Error::IntegerTypeConversion` like the neighbouring range checks
+  (`start_time_overflow_rejected`, part of `range_errors`). `start_time_window` is therefore the
+  full statement: every accepted configuration satisfies the window.
 -/
 import EcModel.Lemmas.DcSyncLemmas
 
@@ -41,9 +40,10 @@ theorem configure_ok (m : Mode) (refAddr sys delay period shift : Nat) (devs : L
   have hp : 0 < period := hr.periodPos
   have h1 : ¬ period > U32_MAX := Nat.not_lt.2 hr.periodU32
   have h2 : ¬ delay > U32_MAX := Nat.not_lt.2 hr.delayU32
+  have h3 : ¬ ¬ (sys + delay < U64) := fun h => h hsum
   unfold configureDcSync
-  rw [if_neg hr.hasRef, if_neg h1, if_neg h2,
-    devLoop_ok m sys delay period _ (startTime_ok m sys delay period hsum hp) devs hr.sync1]
+  rw [if_neg hr.hasRef, if_neg h1, if_neg h2, if_neg h3,
+    devLoop_ok m (sys + delay) period _ (startTime_ok m (sys + delay) period hsum hp) devs hr.sync1]
   rfl
 
 /-- Clause 1: whatever the inputs, mode and outcome (including errors and panics half way), every
@@ -52,9 +52,9 @@ theorem only_dc_devices_touched (m : Mode) (refAddr sys delay period shift : Nat
     ∀ w ∈ (configureDcSync m refAddr sys delay period shift devs).1,
       ∃ d ∈ devs, d.dcAny = true ∧ d.sync ≠ .disabled ∧ w.addr = d.addr := by
   intro w hw
-  have key : ∀ w ∈ (devLoop m sys delay period devs).1, ∃ d ∈ devs, wants d = true ∧ w.addr = d.addr :=
-    devLoop_addr m sys delay period devs
-  have hwm : w ∈ (devLoop m sys delay period devs).1 := by
+  have key : ∀ w ∈ (devLoop m (sys + delay) period devs).1, ∃ d ∈ devs, wants d = true ∧ w.addr = d.addr :=
+    devLoop_addr m (sys + delay) period devs
+  have hwm : w ∈ (devLoop m (sys + delay) period devs).1 := by
     unfold configureDcSync at hw
     by_cases h0 : refAddr = 0
     · simp [h0] at hw
@@ -62,13 +62,15 @@ theorem only_dc_devices_touched (m : Mode) (refAddr sys delay period shift : Nat
       · simp [h0, h1] at hw
       · by_cases h2 : delay > U32_MAX
         · simp [h0, h1, h2] at hw
-        · rw [if_neg h0, if_neg h1, if_neg h2] at hw
-          rcases hl : devLoop m sys delay period devs with ⟨ws, r⟩
-          rw [hl] at hw
-          cases r with
-          | ok u => cases u; exact hw
-          | err e => exact hw
-          | panic s => exact hw
+        · by_cases h3 : ¬ (sys + delay < U64)
+          · simp [h0, h1, h2, h3] at hw
+          · rw [if_neg h0, if_neg h1, if_neg h2, if_neg h3] at hw
+            rcases hl : devLoop m (sys + delay) period devs with ⟨ws, r⟩
+            rw [hl] at hw
+            cases r with
+            | ok u => cases u; exact hw
+            | err e => exact hw
+            | panic s => exact hw
   rcases key w hwm with ⟨d, hd, hwants, ha⟩
   refine ⟨d, hd, ?_, ?_, ha⟩
   · unfold wants at hwants
@@ -99,67 +101,59 @@ theorem every_dc_device_configured (m : Mode) (refAddr sys delay period shift : 
   exact ⟨List.flatMap (okWrites (startOf sys delay period) period) pre,
     List.flatMap (okWrites (startOf sys delay period) period) post, by simp [List.append_assoc]⟩
 
-/-- Clause 2 (partial: `sys + delay < 2^64`): the start time written to register 0x0990 of every
-    configured device is a whole multiple of the SYNC0 period in the half-open window
-    `(sys + delay − period, sys + delay]`, is a `u64`, and is what the 8 written bytes decode to. -/
-theorem start_time_window_partial (m : Mode) (refAddr sys delay period shift : Nat) (devs : List Dev)
-    (hr : InRange refAddr delay period devs) (hsum : sys + delay < U64) :
-    let start := startOf sys delay period
-    start % period = 0 ∧ sys + delay < start + period ∧ start ≤ sys + delay ∧
-    rd64 (le64 start) = start ∧
-    ∀ d ∈ devs, d.dcAny = true → d.sync ≠ .disabled →
-      (⟨d.addr, 0x0990, le64 start⟩ : Write) ∈ (configureDcSync m refAddr sys delay period shift devs).1 := by
-  have hp : 0 < period := hr.periodPos
-  have hle : (sys + delay) / period * period ≤ sys + delay := Nat.div_mul_le_self _ _
-  refine ⟨?_, ?_, hle, ?_, ?_⟩
-  · exact Nat.mul_mod_left _ _
-  · show sys + delay < (sys + delay) / period * period + period
-    exact Nat.lt_div_mul_add hp
-  · apply rd64_le64
-    show (sys + delay) / period * period < U64
-    omega
-  · intro d hd hdc hs
-    have hin := every_dc_device_configured m refAddr sys delay period shift devs hr hsum d hd hdc hs
-    apply hin.subset
-    simp [okWrites]
+/-- Clause 2: for every in-range configuration, either the first pulse time `sys + delay` fits in
+    64 bits and the start time written to register 0x0990 of every configured device is a whole
+    multiple of the SYNC0 period in the half-open window `(sys + delay − period, sys + delay]` (and is
+    what the 8 written bytes decode to), or it does not fit and the call is rejected with an error
+    before anything is written. No panic, no out-of-window value, in any build mode. -/
+theorem start_time_window (m : Mode) (refAddr sys delay period shift : Nat) (devs : List Dev)
+    (hr : InRange refAddr delay period devs) :
+    (sys + delay < U64 →
+      let start := startOf sys delay period
+      start % period = 0 ∧ sys + delay < start + period ∧ start ≤ sys + delay ∧
+      rd64 (le64 start) = start ∧
+      ∀ d ∈ devs, d.dcAny = true → d.sync ≠ .disabled →
+        (⟨d.addr, 0x0990, le64 start⟩ : Write) ∈ (configureDcSync m refAddr sys delay period shift devs).1) ∧
+    (U64 ≤ sys + delay →
+      configureDcSync m refAddr sys delay period shift devs = ([], .err .intConv)) := by
+  refine ⟨?_, ?_⟩
+  · intro hsum
+    have hp : 0 < period := hr.periodPos
+    have hle : (sys + delay) / period * period ≤ sys + delay := Nat.div_mul_le_self _ _
+    refine ⟨?_, ?_, hle, ?_, ?_⟩
+    · exact Nat.mul_mod_left _ _
+    · show sys + delay < (sys + delay) / period * period + period
+      exact Nat.lt_div_mul_add hp
+    · apply rd64_le64
+      show (sys + delay) / period * period < U64
+      omega
+    · intro d hd hdc hs
+      have hin := every_dc_device_configured m refAddr sys delay period shift devs hr hsum d hd hdc hs
+      apply hin.subset
+      simp [okWrites]
+  · intro hsum
+    have h1 : ¬ period > U32_MAX := Nat.not_lt.2 hr.periodU32
+    have h2 : ¬ delay > U32_MAX := Nat.not_lt.2 hr.delayU32
+    have h3 : ¬ (sys + delay < U64) := by omega
+    unfold configureDcSync
+    rw [if_neg hr.hasRef, if_neg h1, if_neg h2, if_pos h3]
 
-/-- The excluded class, checked builds: an in-range configuration with at least one taker whose
-    `sys + delay` does not fit in 64 bits panics (after deactivating the first taker's sync unit). -/
-theorem start_time_overflow_checked (refAddr sys delay period shift : Nat) (devs : List Dev)
-    (hr : InRange refAddr delay period devs) (hsum : U64 ≤ sys + delay)
-    (hex : ∃ d ∈ devs, wants d = true) :
-    ∃ a, configureDcSync .checked refAddr sys delay period shift devs
-      = ([⟨a, 0x0981, [0]⟩], .panic "attempt to add with overflow") := by
-  have h1 : ¬ period > U32_MAX := Nat.not_lt.2 hr.periodU32
-  have h2 : ¬ delay > U32_MAX := Nat.not_lt.2 hr.delayU32
-  rcases devLoop_overflow_checked sys delay period hsum devs hex with ⟨a, ha⟩
-  refine ⟨a, ?_⟩
-  unfold configureDcSync
-  rw [if_neg hr.hasRef, if_neg h1, if_neg h2, ha]
+/-- The former witnesses of c18/start-time-add-overflow (reference time `u64::MAX`, start delay
+    1 / 3 ns, 1 µs period) are now rejected, in both build modes, with nothing written. -/
+theorem start_time_overflow_rejected (m : Mode) :
+    configureDcSync m 0x1000 18446744073709551615 3 1000 0 [⟨0x1000, true, .sync0⟩] = ([], .err .intConv) ∧
+    configureDcSync m 0x1000 18446744073709551615 1 1000 0 [⟨0x1000, true, .sync0⟩] = ([], .err .intConv) ∧
+    (configureDcSync m 0x1000 18446744073709551614 1 1000 0 [⟨0x1000, true, .sync0⟩]).2
+      = .ok ⟨1000, 0, 0x1000⟩ := by
+  cases m <;> refine ⟨by decide, by decide, by decide⟩
 
-/-- The excluded class, release builds: the start time is computed from the wrapped sum. -/
-theorem start_time_overflow_wrapping (refAddr sys delay period shift : Nat) (devs : List Dev)
-    (hr : InRange refAddr delay period devs) (hsum : U64 ≤ sys + delay) :
-    configureDcSync .wrapping refAddr sys delay period shift devs
-      = ((devs.filter (fun d => wants d)).flatMap (okWrites ((sys + delay) % U64 / period * period) period),
-         .ok ⟨period, shift % U64, refAddr⟩) := by
-  have hp : 0 < period := hr.periodPos
-  have h1 : ¬ period > U32_MAX := Nat.not_lt.2 hr.periodU32
-  have h2 : ¬ delay > U32_MAX := Nat.not_lt.2 hr.delayU32
-  unfold configureDcSync
-  rw [if_neg hr.hasRef, if_neg h1, if_neg h2,
-    devLoop_ok .wrapping sys delay period _ (startTime_overflow_wrapping sys delay period hsum hp) devs hr.sync1]
-
-/-- Concrete witnesses of the known finding: reference time `u64::MAX`, start delay 3 ns, 1 µs
-    period, one 64-bit DC device with SYNC0. Debug build: panic. Release build: start time 0 is
-    programmed, which is not in `(2^64 + 2 − 1000, 2^64 + 2]`. -/
-theorem start_time_window_counterexample :
-    configureDcSync .checked 0x1000 18446744073709551615 3 1000 0 [⟨0x1000, true, .sync0⟩]
-      = ([⟨0x1000, 0x0981, [0]⟩], .panic "attempt to add with overflow")
-    ∧ (⟨0x1000, 0x0990, le64 0⟩ : Write)
-        ∈ (configureDcSync .wrapping 0x1000 18446744073709551615 3 1000 0 [⟨0x1000, true, .sync0⟩]).1
-    ∧ ¬ (18446744073709551615 + 3 < 0 + 1000) := by
-  refine ⟨by decide, by decide, by decide⟩
+/-- In-range configurations never panic (any build mode). -/
+theorem configure_total (m : Mode) (refAddr sys delay period shift : Nat) (devs : List Dev)
+    (hr : InRange refAddr delay period devs) (w : String) :
+    (configureDcSync m refAddr sys delay period shift devs).2 ≠ .panic w := by
+  by_cases hsum : sys + delay < U64
+  · rw [configure_ok m refAddr sys delay period shift devs hr hsum]; simp
+  · rw [(start_time_window m refAddr sys delay period shift devs hr).2 (by omega)]; simp
 
 /-- Clause 3: periods or delays beyond 32-bit nanoseconds, and a network without a reference
     clock, are rejected with an error before anything is written. -/
